@@ -337,3 +337,157 @@ Proof.
   intros fuel bufs all r racc Hwf Hm. pose proof (read_to_eof_gen fuel bufs all r racc Hwf Hm) as G.
   destruct (read_to_eof fuel bufs all r racc) as [[p e] r']. cbn [fst snd]. apply G.
 Qed.
+
+(* ------------------------------------------------------------------ the NextFrame / Read loop on arbitrary input *)
+Lemma drive_gen bufs : forall fuel r, wf_src (r_src r) -> (rlen r + 1 <= fuel)%nat ->
+  dr_err (drive fuel bufs r) <> ROutOfFuel.
+Proof.
+  induction fuel as [|fuel IH]; intros r Hwf Hf; [lia|].
+  cbn [drive]. pose proof (next_frame_gen r) as F. destruct (next_frame r) as [[h e] r1].
+  destruct F as (Hw1 & Hle1 & Hn1 & Hok1). specialize (Hw1 Hwf).
+  destruct e as [e|].
+  { cbn [dr_err]. intros ->. apply Hn1. reflexivity. }
+  specialize (Hok1 eq_refl).
+  assert (Hm: (rmeasure r1 < S fuel)%nat) by (unfold rmeasure; destruct (r_frame r1); lia).
+  pose proof (read_to_eof_gen (S fuel) bufs bufs r1 [] Hw1 Hm) as T.
+  destruct (read_to_eof (S fuel) bufs bufs r1 []) as [[p e2] r2]. destruct T as (Hn2 & Hw2 & Hle2).
+  destruct e2 as [[| |]| | | | | | | |]; cbn [dr_err]; try discriminate; try (exfalso; apply Hn2; reflexivity).
+  apply IH.
+  - exact Hw2.
+  - unfold rlen in *. rsimpl. lia.
+Qed.
+
+Theorem drive_total : forall s state skip chk max ext cb bufs fuel,
+  wf_src s -> (length (flat s) + 1 <= fuel)%nat ->
+  dr_err (drive fuel bufs (new_reader s state skip chk max ext cb)) <> ROutOfFuel.
+Proof. intros. apply drive_gen; assumption. Qed.
+
+(* from ANY reader state, not only a fresh one *)
+Theorem drive_total_any_state : forall r bufs fuel,
+  wf_src (r_src r) -> (length (flat (r_src r)) + 1 <= fuel)%nat ->
+  dr_err (drive fuel bufs r) <> ROutOfFuel.
+Proof. intros. apply drive_gen; assumption. Qed.
+
+(* ------------------------------------------------------------------ Discard *)
+(* every iteration of Discard's loop consumes a header; no assumption on the
+   chunking at all *)
+Lemma discard_gen : forall fuel r, (rlen r + 1 <= fuel)%nat ->
+  fst (discard fuel r) <> Some ROutOfFuel.
+Proof.
+  induction fuel as [|fuel IH]; intros r Hf; [lia|].
+  cbn [discard]. pose proof (raw_drain_gen r) as D. destruct (raw_drain r) as [e r1].
+  destruct D as (_ & _ & Hle1). destruct e as [e|]; [cbn [fst]; discriminate|].
+  destruct (negb (st_fragmented (r_state r1))); [cbn [fst]; discriminate|].
+  pose proof (next_frame_gen r1) as F. destruct (next_frame r1) as [[h e2] r2].
+  destruct F as (_ & Hle2 & Hn2 & Hok2). destruct e2 as [e2|].
+  { cbn [fst]. intros H. apply Hn2. exact H. }
+  specialize (Hok2 eq_refl). apply IH. lia.
+Qed.
+
+Theorem discard_total : forall r,
+  fst (discard (S (length (flat (r_src r)))) r) <> Some ROutOfFuel.
+Proof. intros r. apply discard_gen. unfold rlen. lia. Qed.
+
+(* ------------------------------------------------------------------ helper.go:ReadMessage, repeated *)
+Lemma read_full_rd_gen : forall fuel need got r racc, wf_src (r_src r) -> (rmeasure r < fuel)%nat ->
+  let '((p, e), r') := read_full_rd fuel need got r racc in
+  e <> Some ROutOfFuel /\ wf_src (r_src r') /\ (rlen r' <= rlen r)%nat.
+Proof.
+  induction fuel as [|fuel IH]; intros need got r racc Hwf Hm; [lia|].
+  cbn [read_full_rd]. destruct (need =? 0) eqn:E0.
+  { repeat split; auto. discriminate. }
+  pose proof (reader_read_gen need r Hwf ltac:(lia)) as R. destruct (reader_read need r) as [[d e] r1].
+  destruct R as (Hw1 & Hle1 & Hn1 & Hp1). destruct e as [e|].
+  - destruct (need <=? len d); [repeat split; auto; discriminate|].
+    repeat split; auto. intros H. apply Hn1.
+    destruct e as [[| |]| | | | | | | |]; try discriminate H; [|reflexivity].
+    destruct (got + len d =? 0); discriminate H.
+  - specialize (Hp1 eq_refl). specialize (IH (need - len d) (got + len d) r1 (d :: racc) Hw1 ltac:(lia)).
+    destruct (read_full_rd fuel (need - len d) (got + len d) r1 (d :: racc)) as [[p e] r'].
+    destruct IH as (I1 & I2 & I3). repeat split; auto. lia.
+Qed.
+
+Lemma read_message_gen fuel bufs s state : wf_src s -> (length (flat s) + 1 <= fuel)%nat ->
+  let '((evs, e), s') := read_message fuel bufs s state in
+  e <> Some ROutOfFuel /\ wf_src s' /\ (e = None -> (length (flat s') + 2 <= length (flat s))%nat).
+Proof.
+  intros Hwf Hf. unfold read_message.
+  set (r := new_reader s state false true 0 false CbReadAll).
+  pose proof (next_frame_gen r) as F. destruct (next_frame r) as [[h e] r1].
+  destruct F as (Hw1 & Hle1 & Hn1 & Hok1). specialize (Hw1 Hwf).
+  change (rlen r) with (length (flat s)) in *.
+  destruct e as [e|].
+  { repeat split; auto; discriminate. }
+  specialize (Hok1 eq_refl).
+  assert (Hm: (rmeasure r1 < fuel)%nat) by (unfold rmeasure; destruct (r_frame r1); lia).
+  destruct (h_fin h).
+  - pose proof (read_full_rd_gen fuel (Z.to_N (h_len h)) 0 r1 [] Hw1 Hm) as T.
+    destruct (read_full_rd fuel (Z.to_N (h_len h)) 0 r1 []) as [[p e2] r2]. destruct T as (Hn2 & Hw2 & Hle2).
+    destruct e2 as [e2|]; repeat split; auto; try discriminate. intros _. unfold rlen in *. lia.
+  - pose proof (read_to_eof_gen fuel bufs bufs r1 [] Hw1 Hm) as T.
+    destruct (read_to_eof fuel bufs bufs r1 []) as [[p e2] r2]. destruct T as (Hn2 & Hw2 & Hle2).
+    destruct e2 as [[| |]| | | | | | | |]; repeat split; auto; try discriminate;
+      try (intros _; unfold rlen in *; lia).
+Qed.
+
+Lemma read_messages_gen bufs state : forall fuel s acc, wf_src s -> (length (flat s) + 1 <= fuel)%nat ->
+  snd (read_messages fuel bufs s state acc) <> ROutOfFuel.
+Proof.
+  induction fuel as [|fuel IH]; intros s acc Hwf Hf; [lia|].
+  cbn [read_messages]. pose proof (read_message_gen (S fuel) bufs s state Hwf Hf) as M.
+  destruct (read_message (S fuel) bufs s state) as [[evs e] s']. destruct M as (Hn & Hw & Hok).
+  destruct e as [e|].
+  - cbn [snd]. intros ->. apply Hn. reflexivity.
+  - specialize (Hok eq_refl). apply IH; [exact Hw|lia].
+Qed.
+
+Theorem read_messages_total : forall fuel bufs s state acc,
+  wf_src s -> (length (flat s) + 1 <= fuel)%nat ->
+  snd (read_messages fuel bufs s state acc) <> ROutOfFuel.
+Proof. intros. apply read_messages_gen; assumption. Qed.
+
+Theorem read_message_total : forall fuel bufs s state,
+  wf_src s -> (length (flat s) + 1 <= fuel)%nat ->
+  snd (fst (read_message fuel bufs s state)) <> Some ROutOfFuel.
+Proof.
+  intros fuel bufs s state Hwf Hf. pose proof (read_message_gen fuel bufs s state Hwf Hf) as M.
+  destruct (read_message fuel bufs s state) as [[evs e] s']. cbn [fst snd]. apply M.
+Qed.
+
+(* ------------------------------------------------------------------ arbitrary operation sequences *)
+Lemma discard_wf : forall fuel r, wf_src (r_src r) -> wf_src (r_src (snd (discard fuel r))).
+Proof.
+  induction fuel as [|fuel IH]; intros r Hwf; [exact Hwf|].
+  cbn [discard]. pose proof (raw_drain_gen r) as D. destruct (raw_drain r) as [e r1].
+  destruct D as (Hw1 & _ & _). specialize (Hw1 Hwf). destruct e as [e|]; [exact Hw1|].
+  destruct (negb (st_fragmented (r_state r1))); [exact Hw1|].
+  pose proof (next_frame_gen r1) as F. destruct (next_frame r1) as [[h e2] r2].
+  destruct F as (Hw2 & _). specialize (Hw2 Hw1). destruct e2 as [e2|]; [exact Hw2|]. apply IH, Hw2.
+Qed.
+
+Definition rout_err (o : rout) : option rerror :=
+  match o with OutNext _ e => e | OutRead _ e => e | OutDiscard e => e end.
+
+(* any interleaving of NextFrame / Read / Discard calls on one Reader over any
+   bytes: every call returns, none with the out-of-fuel artefact *)
+Theorem run_script_total : forall ops r, wf_src (r_src r) ->
+  Forall (fun o => rout_err o <> Some ROutOfFuel) (fst (run_script ops r)).
+Proof.
+  induction ops as [|op ops IH]; intros r Hwf; cbn [run_script]; [constructor|].
+  assert (H: let '(o, r1) := match op with
+      | OpNext => let '((h, e), r1) := next_frame r in (OutNext h e, r1)
+      | OpRead k => let '((d, e), r1) := reader_read (if k =? 0 then 1 else k) r in (OutRead d e, r1)
+      | OpDiscard => let '(e, r1) := discard (S (length (flat (r_src r)))) r in (OutDiscard e, r1)
+      end in rout_err o <> Some ROutOfFuel /\ wf_src (r_src r1)).
+  { destruct op as [|k|].
+    - pose proof (next_frame_gen r) as F. destruct (next_frame r) as [[h e] r1].
+      destruct F as (Hw & _ & Hn & _). split; [exact Hn|exact (Hw Hwf)].
+    - pose proof (reader_read_gen (if k =? 0 then 1 else k) r Hwf ltac:(destruct (k =? 0) eqn:E; lia)) as R.
+      destruct (reader_read (if k =? 0 then 1 else k) r) as [[d e] r1].
+      destruct R as (Hw & _ & Hn & _). split; [exact Hn|exact Hw].
+    - pose proof (discard_total r) as D. pose proof (discard_wf (S (length (flat (r_src r)))) r Hwf) as W.
+      destruct (discard (S (length (flat (r_src r)))) r) as [e r1]. split; [exact D|exact W]. }
+  destruct (match op with OpNext => _ | OpRead k => _ | OpDiscard => _ end) as [o r1].
+  destruct H as [Ho Hw1]. specialize (IH r1 Hw1). destruct (run_script ops r1) as [os r2].
+  cbn [fst] in *. constructor; assumption.
+Qed.
